@@ -242,6 +242,15 @@ func checkCorrelation(ap *intermediate.AggregationProcess, f FlowDef, x *XFlow, 
 	if d := num("ingressNetworkPolicyRulePriority", int64(i32), int64(f.CorrS.Priority), int64(f.CorrD.Priority)); d != "" {
 		return d
 	}
+	// one-byte correlate fields (rule actions)
+	u8a, _ := em["ingressNetworkPolicyRuleAction"].(uint8)
+	if d := num("ingressNetworkPolicyRuleAction", int64(u8a), int64(f.CorrS.IngAct), int64(f.CorrD.IngAct)); d != "" {
+		return d
+	}
+	u8b, _ := em["egressNetworkPolicyRuleAction"].(uint8)
+	if d := num("egressNetworkPolicyRuleAction", int64(u8b), int64(f.CorrS.EgrAct), int64(f.CorrD.EgrAct)); d != "" {
+		return d
+	}
 	cn := "destinationClusterIPv4"
 	if f.V6 {
 		cn = "destinationClusterIPv6"
